@@ -31,6 +31,17 @@ class Outcome:
         self.summary = summary
 
 
+def shorten(x, limit=160):
+    """Samples are for a reader: long strings are abbreviated (the full case is what gets hashed / replayed)."""
+    if isinstance(x, str) and len(x) > limit:
+        return "%s... <%d chars>" % (x[:limit // 2], len(x))
+    if isinstance(x, (list, tuple)):
+        return [shorten(y, limit) for y in x[:60]] + (["... <%d items>" % len(x)] if len(x) > 60 else [])
+    if isinstance(x, dict):
+        return {k: shorten(v, limit) for k, v in x.items()}
+    return x
+
+
 def case_hash(case):
     return hashlib.sha1(json.dumps(case, sort_keys=True, default=repr).encode()).hexdigest()[:14]
 
@@ -96,7 +107,7 @@ def worker_main(prop_id, tier, w, nworkers, seed, outfile):
             if h not in st["nontrivial"]:
                 st["nontrivial"].add(h)
                 if len(st["samples"]) < 3:
-                    st["samples"].append({"case": case, "observed": oc.summary})
+                    st["samples"].append({"case": shorten(case), "observed": shorten(oc.summary)})
         if hasattr(mod, "account"):
             mod.account(st["extra"], case, oc)
 
